@@ -5,7 +5,7 @@ Proof/YamlChunked — generic lemmas about chunked SIMD scans as modelled in Mod
 them.  (C09/C13 own a `Proof/Chunked.lean`; this file is self-contained and can be unified later.)
 -/
 import SuccinctlyVerif.Model.YamlSimd
-namespace SV.Yaml
+namespace SV.YamlK
 
 /-- A statement about all 256 byte values follows from its 256 instances. -/
 theorem byte_forall (P : Byte → Prop) (h : ∀ i : Fin 256, P (BitVec.ofFin i)) : ∀ x : Byte, P x := by
@@ -501,4 +501,4 @@ theorem nlMaskLoop_lanes (test : Nat → Option Nat) (pos : Nat) (lanes : List B
         rw [hc, clear_lowest, ih (k + 1) fuel (by omega) (by omega)]
 
 
-end SV.Yaml
+end SV.YamlK
